@@ -31,6 +31,10 @@ CatAll ==
        [] d = "r:wpart:orig"     -> R("wpart", "C", "orig")
        [] d = "r:wpart:absent"   -> R("wpart", "C", "absent")
        [] d = "r:wpart:partnan"  -> R("wpart", "C", "partnan")
+       [] d = "r:wdup:orig"      -> R("wdup", "C", "orig")
+       [] d = "r:wdup:allnan"    -> R("wdup", "C", "allnan")
+       [] d = "r:wdup:absent"    -> R("wdup", "C", "absent")
+       [] d = "r:wdup:partnan"   -> R("wdup", "C", "partnan")
        [] d = "r:wgap:orig"      -> R("wgap", "C", "orig")
        [] d = "r:wgap:allnan"    -> R("wgap", "C", "allnan")
        [] d = "r:wgap:absent"    -> R("wgap", "C", "absent")
@@ -47,6 +51,8 @@ CatAll ==
 T_gate  == << {"new"}, {"sweep", "fit"}, {"sweep", "fit", "save"}, {"sweep", "save", "restart", "load"}, {"sweep", "restart", "load"}, {"sweep", "load"}, {"sweep"} >>
 T_refit == << {"new"}, {"fit"}, {"sweep", "fit"}, {"fit", "sweep"}, {"sweep", "save"}, {"sweep"} >>
 T_store == << {"new"}, {"fit"}, {"sweep"}, {"save"}, {"restart", "load"}, {"load", "sweep"}, {"sweep", "save"}, {"save", "sweep"} >>
+\* two different stored models restored side by side in one process, the one restored first used afterwards
+T_store2 == << {"new"}, {"new"}, {"fit"}, {"fit"}, {"save"}, {"save"}, {"restart"}, {"load"}, {"load", "sweep"}, {"sweep", "load"}, {"sweep"}, {"sweep", "save"} >>
 T_pure  == << {"new"}, {"fit"}, {"predict"}, {"predict", "readdf"}, {"predict", "scribble"}, {"predict", "save"} >>
 T_inter == << {"new"}, {"new"}, {"fit"}, {"predict", "fit"}, {"fit", "predict"}, {"predict"} >>
 T_obs   == << {"new"}, {"fit"}, {"predict"}, {"predict"}, {"predict"} >>
